@@ -336,6 +336,11 @@ def gen_case_c27(rng, big: bool) -> Case:
         ops.append(req(1, lines, body))
         nstores += 1
         refs.append(f"s{nstores}")
+    if rng.random() < 0.35:
+        # a manifest issued by another node for a chunk this daemon holds: registration is refused
+        # (Node::manifest_keeps_held_chunk_readable), the authenticated FETCH fails at ingest, nothing changes
+        ops.append("mk m3 " + hx(payload) + " 3600")
+        refs.append("m3")
     variants = token_variants(rng, tok)
     shape = rng.choice(["sweep-store", "sweep-fetch", "sweep-stop", "mixed", "mixed"])
     n = rng.randint(6, 14) if not big else rng.randint(20, 40)
